@@ -39,6 +39,7 @@ CONSTANTS NF,              \* number of package-list files (1..2)
           NP,              \* number of package identities (1..3)
           MaxLayers,       \* 1..MaxLayers history entries (layers + empty layers)
           AllowEmpty,      \* BOOLEAN: empty layers (history-only entries) may be interleaved
+          OneFilePerLayer, \* TRUE: a layer touches at most one file (sparse histories for the random sampler)
           Aligns,          \* subset of {"match", "missing", "short", "long"}
           Stepwise,        \* TRUE: PopulateLayerDetails runs as TLC actions (any package order, invariants
                            \*       at every step); FALSE: it is run to completion inside Close
@@ -197,6 +198,7 @@ Init == hist = <<>> /\ phase = "build" /\ align = "none" /\ chain = <<>> /\ op =
 LegalOps(h, ops) == \A f \in Files : ops[f].k = "delete" => View(h, Len(h), f).present
 AddLayer(ops) == /\ phase = "build" /\ Len(hist) < MaxLayers
                  /\ LegalOps(hist, ops)
+                 /\ OneFilePerLayer => Cardinality({f \in Files : ops[f].k # "ignore"}) <= 1
                  /\ hist' = Append(hist, [empty |-> FALSE, ops |-> ops])
                  /\ UNCHANGED <<phase, align, chain, op>>
 AddEmptyLayer == /\ phase = "build" /\ Len(hist) < MaxLayers /\ AllowEmpty
